@@ -257,6 +257,7 @@ fn holder_history(ctx: &Ctx, case: u64, l: &mut Local) {
         _ => return,
     };
     let mut earlier_kbs: HashSet<String> = HashSet::new();
+    let mut prev_args: Option<(Value, Option<KbArgs>)> = None;
     let mut failed_before = false;
     let mut summary: Vec<Value> = vec![];
     let mut prev_kb: Option<bool> = None;
@@ -286,9 +287,23 @@ fn holder_history(ctx: &Ctx, case: u64, l: &mut Local) {
             fp = crate::rng::mix(fp ^ 0xF0 ^ kind);
             continue;
         }
-        let sel = pipeline::random_selection(&mut r, &s.u);
+        // arguments are drawn independently — which includes drawing the SAME selection / aud /
+        // nonce as the previous call (30 %) and signing with another key than the confirmed one (25 %)
+        let repeat = prev_args.is_some() && r.chance(30);
+        let sel = if repeat { prev_args.as_ref().unwrap().0.clone() } else { pipeline::random_selection(&mut r, &s.u) };
         let (_, d) = model::view(&s.u, &sel, &s.strat.sd);
-        let kb: Option<KbArgs> = cfg.holder.filter(|_| r.chance(50)).map(|h| pipeline::kb_args_for(&mut r, h));
+        let mut kb: Option<KbArgs> = cfg.holder.filter(|_| r.chance(if repeat { 85 } else { 50 })).map(|h| pipeline::kb_args_for(&mut r, h));
+        if let (true, Some(k), Some((_, Some(pk)))) = (repeat, kb.as_mut(), prev_args.as_ref()) {
+            k.aud = pk.aud.clone();
+            k.nonce = pk.nonce.clone();
+            k.explicit_alg = pk.explicit_alg;
+        }
+        if let Some(k) = kb.as_mut() {
+            if r.chance(25) {
+                k.key_idx = 1;
+            }
+        }
+        prev_args = Some((sel.clone(), kb.clone()));
         let earlier = summary.clone();
         let input = || json!({"base": base_input(), "call": k, "earlier_calls": earlier, "selection": sel, "kb": kb.as_ref().map(|k| json!({"aud": k.aud.chars().take(30).collect::<String>(), "nonce": k.nonce.chars().take(30).collect::<String>()}))});
         if let Some(p) = prev_kb {
@@ -352,7 +367,29 @@ fn holder_history(ctx: &Ctx, case: u64, l: &mut Local) {
                         if earlier_kbs.contains(&kbs) {
                             l.count("holder.kb-jwt-identical-to-an-earlier-one(legitimate)");
                         }
-                        earlier_kbs.insert(kbs);
+                        earlier_kbs.insert(kbs.clone());
+                        // the KB-JWT must be signed with the key THIS call passed
+                        let signer_ok = |idx: usize| -> bool {
+                            let jwk = keys::holder_jwk(ka.alg, idx);
+                            let mut val = jsonwebtoken::Validation::new(ka.alg.jwt());
+                            val.validate_exp = false;
+                            val.validate_aud = false;
+                            val.required_spec_claims.clear();
+                            jsonwebtoken::DecodingKey::from_jwk(&jwk).ok().map(|dk| jsonwebtoken::decode::<Value>(&kbs, &dk, &val).is_ok()).unwrap_or(false)
+                        };
+                        if !signer_ok(ka.key_idx) || signer_ok(1 - ka.key_idx) {
+                            l.violate(viol(case, "kb-jwt-signed-with-another-calls-key", &format!("reused-holder {}", cfg.fmt.name()), "KB-JWT does not verify under the key passed to this call (or verifies under the other key)".into(), json!({"input": input(), "key_idx": ka.key_idx})));
+                        } else {
+                            l.count("holder.kb-signer-checked");
+                        }
+                        if ka.key_idx != 0 {
+                            // signed with a key the credential does not confirm: the verifier must refuse
+                            let v = api::verify(&pres, &Resolver::Fixed(cfg.alg, 0), Some((ka.aud.as_str(), ka.nonce.as_str())), cfg.fmt);
+                            if v.out.is_ok() {
+                                l.violate(viol(case, "kb-by-unconfirmed-key-accepted", &format!("reused-holder {}", cfg.fmt.name()), "Ok".into(), json!({"input": input()})));
+                            }
+                            continue;
+                        }
                         // and it verifies
                         let v = api::verify(&pres, &Resolver::Fixed(cfg.alg, 0), Some((ka.aud.as_str(), ka.nonce.as_str())), cfg.fmt);
                         if !v.out.is_ok() {
